@@ -111,7 +111,13 @@ Proof.
         cbn [ritem_body app next_rreq] in *. rewrite app_nil_r in *.
         cbn [raw_inner]. unfold raw_block.
         rewrite read_string_eof by (apply nolf_wrap_line; [eapply wf_r_lay; eauto|reflexivity]).
-        reflexivity.
+        cbn [negb andb].
+        destruct (wrap_line l (ritem_text RBlank)) as [|w ws] eqn:Ew; [reflexivity|].
+        cbn [is_nil]. rewrite <- Ew.
+        rewrite trim_wrap_line_nocr by (eauto using wf_r_lay; left; reflexivity).
+        cbn [ritem_text].
+        assert (Hf1 : (1 <= f)%nat) by (cbn [length] in Hf; lia).
+        destruct f as [|f']; [lia|]. reflexivity.
     + rewrite render_raw_cons2 in *. cbn [raw_inner].
       rewrite (raw_block_item_lf i l _ Hi).
       assert (Hlen : (length (render_raw (x :: r') fin) < f)%nat).
